@@ -760,9 +760,7 @@ class Engine(ExprMixin, CallMixin):
             raise Refuse(f"function {key} not found in the repository (renamed or removed)")
         self.cur, self.cur_key, self.cur_node = c, key, fnode
         nloops = self.number_loops(fnode)
-        for k in c.loops:
-            if k >= nloops:
-                raise Refuse(f"{key}: loop contract {k} but the function has {nloops} loops")
+        # a loop contract whose loop is gone is simply unused (the postconditions decide); a loop WITHOUT a contract refuses later
         self.call_ordinal = 0
         self.nonterm_loops = getattr(self, 'nonterm_loops', [])
         st = State()
